@@ -248,6 +248,7 @@ static CO_ERR COCSdoInitUploadSegmented(CO_CSDO *csdo)
         (Sub == csdo->Tfer.Sub)) {
 
         result = CO_ERR_NONE;
+        csdo->Tfer.Seg = 1u;
 
         /* setup CAN request */
         CO_SET_ID  (&frm, csdo->TxId);
@@ -337,6 +338,7 @@ static CO_ERR COCSdoInitDownloadSegmented(CO_CSDO *csdo)
     if ((Idx == csdo->Tfer.Idx) &&
         (Sub == csdo->Tfer.Sub)) {
 
+        csdo->Tfer.Seg = 1u;
         CO_SET_ID  (&frm, csdo->TxId);
         CO_SET_DLC (&frm, 8u);
         CO_SET_LONG(&frm, 0, 0u);
@@ -529,18 +531,18 @@ CO_ERR COCSdoResponse(CO_CSDO *csdo)
     }
 
     if (csdo->Tfer.Type == CO_CSDO_TRANSFER_UPLOAD_SEGMENT) {
-        if (cmd == 0x41u) {
+        if ((cmd == 0x41u) && (csdo->Tfer.Seg == 0u)) {
             (void)COCSdoInitUploadSegmented(csdo);
-        } else if ((cmd & 0xE0u) == 0x00u) {
+        } else if (((cmd & 0xE0u) == 0x00u) && (csdo->Tfer.Seg != 0u)) {
             (void)COCSdoUploadSegmented(csdo);
         } else {
             COCSdoAbort(csdo, CO_SDO_ERR_CMD);
             COCSdoTransferFinalize(csdo);
         }
     } else if (csdo->Tfer.Type == CO_CSDO_TRANSFER_DOWNLOAD_SEGMENT) {
-        if (cmd == 0x60u) {
+        if ((cmd == 0x60u) && (csdo->Tfer.Seg == 0u)) {
             (void)COCSdoInitDownloadSegmented(csdo);
-        } else if (((cmd & 0xE0u) ==  0x20u) ) {
+        } else if (((cmd & 0xE0u) == 0x20u) && (csdo->Tfer.Seg != 0u)) {
             if (csdo->Tfer.Size > csdo->Tfer.Buf_Idx) {
                 (void)COCSdoDownloadSegmented(csdo);
             } else {
@@ -639,6 +641,7 @@ CO_ERR COCSdoRequestUpload(CO_CSDO *csdo,
     csdo->Tfer.Call    = callback;
     csdo->Tfer.Buf_Idx = 0;
     csdo->Tfer.TBit    = 0;
+    csdo->Tfer.Seg     = 0;
 
     /* Transmit transfer initiation directly */
     CO_SET_ID  (&frm, csdo->TxId        );
@@ -701,6 +704,7 @@ CO_ERR COCSdoRequestDownload(CO_CSDO *csdo,
     csdo->Tfer.Call    = callback;
     csdo->Tfer.Buf_Idx = 0;
     csdo->Tfer.TBit    = 0;
+    csdo->Tfer.Seg     = 0;
 
     if (size <= (uint32_t)4u) {
         csdo->Tfer.Type = CO_CSDO_TRANSFER_DOWNLOAD;
